@@ -11,6 +11,8 @@ import os, json
 from vlib import *
 
 HOOK_FLAGS = ['-O1', '-DNDEBUG', '-DUNODB_DETAIL_WITH_STATS', '-DUNODB_SPINLOCK_LOOP_VALUE=1', '-DUNODB_DETAIL_VERIF_HOOKS']
+# C03 only: olc_sched dumps the whole tree whenever no thread holds a write guard (every such moment), see snapshot_check
+SNAP_ARGS = {'C03': ['--snap', '2']}
 PROPS = {'C03': 'Properties/Properties_C03.v', 'C04': 'Properties/Properties_C04.v', 'C09': 'Properties/Properties_C09.v',
          'C14': 'Properties/Properties_C14.v'}
 
@@ -151,6 +153,122 @@ def scan_problems(block_lines):
     return probs
 
 
+_LEAF = None
+
+
+def snapshot_check(out, art_run):
+    """C03, writers vs the sequential model on concurrent executions.  olc_sched --snap prints the canonical dump of the whole
+    tree ('SNAP <clock> <dump>') for the initial tree and for every moment of the execution at which no thread holds a write
+    guard.  Per execution (block of `out`): (a) the entries (key -> value) of every snapshot; (b) its shape must be the shape
+    the extracted sequential model (ocaml/art_run, the driver of p_art) builds for exactly those entries - by C10_canonical /
+    C10g_canonical the shape of a well-formed tree is a function of its entries, so any insertion order serves; (c) from one
+    snapshot to the next the entries change only by keys that an operation in flight between the two moments inserts /
+    removes and that eventually returns true, every operation accounting for at most one change (an insert also for the
+    value).  Returns {'snapshots', 'moments', 'shapes': set, 'incomplete', 'problems': {block index: [text]}}"""
+    global _LEAF
+    import re
+    if _LEAF is None:
+        _LEAF = re.compile(r'L([0-9a-f]+|-)=([0-9a-f]+|-)')
+    blocks = out.split('\nY\n')
+    per_block = []
+    entries_of = {}     # canonical dump -> tuple of (key hex, value hex) in dump order, or None
+    for blk in blocks:
+        init, calls, snaps, stat = {}, [], [], None
+        for l in blk.split('\n'):
+            if l.startswith('SNAP '):
+                t = l.split(' ', 2)
+                snaps.append((int(t[1]), t[2] if len(t) > 2 else ''))
+                if snaps[-1][1] not in entries_of:
+                    c = snaps[-1][1]
+                    entries_of[c] = None if (c.startswith('UNPARSABLE') or c == '') else tuple(_LEAF.findall(c))
+            elif l.startswith('J '):
+                t = l.split(' ')
+                init[int(t[1])] = int(t[2])
+            elif l.startswith('C '):
+                t = l.split(' ')
+                calls.append({'op': t[2], 'key': int(t[3]), 'val': int(t[4]), 'ok': t[5] == '1', 'inv': int(t[7]), 'ret': int(t[8]),
+                              'used': False})
+            elif l.startswith('SNAPSTAT '):
+                stat = dict(x.split('=') for x in l.split(' ')[1:])
+        per_block.append((init, calls, snaps, stat))
+    # (b) the model's shape for every distinct entry set
+    sets = sorted(set(tuple(sorted(e)) for e in entries_of.values() if e is not None))
+    lines = []
+    for es in sets:
+        lines.append('N')
+        lines += ['I %s %s' % kv for kv in es]
+        lines.append('D')
+    expected = {}
+    model_err = None
+    if sets:
+        rc, mo, me = sh([art_run], input='\n'.join(lines) + '\n', timeout=600)
+        mo = mo.splitlines()
+        if rc != 0 or len(mo) != len(lines):
+            model_err = 'the model driver failed on the snapshot entry sets (rc=%s, %d of %d lines): %s' % (rc, len(mo), len(lines), (me or '')[-200:])
+        else:
+            at = 0
+            for es in sets:
+                n = len(es) + 2
+                seg = mo[at:at + n]
+                at += n
+                # every insert of the model must succeed (distinct keys inside the model's domain)
+                expected[es] = seg[-1].split(' ')[0] if all(x.split(' ')[0] == '1' for x in seg[1:-1]) else None
+    res = {'snapshots': 0, 'moments': 0, 'shapes': set(), 'incomplete': 0, 'problems': {}}
+    for bi, (init, calls, snaps, stat) in enumerate(per_block):
+        if stat is None:
+            continue
+        probs = []
+        res['moments'] += int(stat.get('moments', 0))
+        if stat.get('complete') != '1':
+            res['incomplete'] += 1
+        if model_err:
+            probs.append(model_err)
+        prev_t, prev = -1, dict(init)
+        for n, (t, c) in enumerate(snaps):
+            res['snapshots'] += 1
+            res['shapes'].add(c)
+            es = entries_of[c]
+            if es is None:
+                probs.append('the dump of the tree at clock %d cannot be parsed (%s)' % (t, c[:120]))
+                break
+            want = expected.get(tuple(sorted(es)))
+            cur = {}
+            for k, v in es:
+                kk = int(k, 16) if k != '-' else -1
+                if kk in cur:
+                    probs.append('key %x is stored twice in the tree at clock %d' % (kk, t))
+                cur[kk] = int.from_bytes(bytes.fromhex(v), 'little') if v != '-' else -1
+            if not model_err and want != c:
+                probs.append('the tree at clock %d (no write guard held) does not have the shape the sequential model gives for its %d '
+                             'entries: implementation %s / model %s' % (t, len(es), c[:400], str(want)[:400]))
+            # (c) changes since the previous writer-quiescent moment (the set-up tree first: it must be the J entries)
+            gone = [k for k in prev if k not in cur or cur[k] != prev[k]]
+            come = [k for k in cur if k not in prev or cur[k] != prev[k]]
+            if n == 0 and (gone or come):
+                probs.append('the initial snapshot does not contain exactly the initial entries (missing %s, unexpected %s)'
+                             % (['%x' % k for k in gone], ['%x' % k for k in come]))
+            elif n > 0:
+                flying = [o for o in calls if o['ok'] and not o['used'] and o['inv'] < t and o['ret'] > prev_t]
+                for k in gone:
+                    cand = sorted((o for o in flying if o['op'] == 'R' and o['key'] == k and not o['used']), key=lambda o: o['ret'])
+                    if cand:
+                        cand[0]['used'] = True
+                    else:
+                        probs.append('key %x left the tree between clock %d and clock %d although no remove of it that returned true was in '
+                                     'flight in that interval (or each such remove already accounts for another change)' % (k, prev_t, t))
+                for k in come:
+                    cand = [o for o in flying if o['op'] == 'I' and o['key'] == k and o['val'] == cur[k] and not o['used']]
+                    if cand:
+                        cand[0]['used'] = True
+                    else:
+                        probs.append('entry %x -> %x entered the tree between clock %d and clock %d although no insert of it that returned '
+                                     'true was in flight in that interval (or it already accounts for another change)' % (k, cur[k], prev_t, t))
+            prev_t, prev = t, cur
+        if probs:
+            res['problems'][bi] = probs
+    return res
+
+
 def c10_concurrent(res, tier):
     """C10 for the OLC index after concurrent phases (called by p_art): explore writer-heavy programs and collect
     the 'C10:' problems olc_sched reports once all threads have quiesced"""
@@ -214,7 +332,7 @@ def check(pid, tier, replay=None):
     ]
     have = os.path.exists(os.path.join(COQ, PROPS[pid]))
     if have:
-        extra = {'C09': ['Properties/Properties_C09b.v', 'Properties/Properties_C09c.v', 'Properties/Properties_C09d.v'], 'C03': ['Properties/Properties_C03b.v', 'Properties/Properties_C03c.v', 'Properties/Properties_C03d.v', 'Properties/Properties_C03e.v', 'Properties/Properties_C03f.v'],
+        extra = {'C09': ['Properties/Properties_C09b.v', 'Properties/Properties_C09c.v', 'Properties/Properties_C09d.v'], 'C03': ['Properties/Properties_C03b.v', 'Properties/Properties_C03c.v', 'Properties/Properties_C03d.v', 'Properties/Properties_C03e.v', 'Properties/Properties_C03f.v', 'Properties/Properties_C03s.v'],
                  'C14': ['Properties/Properties_C14c.v', 'Properties/Properties_C14d.v'], 'C04': ['Properties/Properties_C04b.v']}
         proof_stage(res, ['lock'], [PROPS[pid]] + extra.get(pid, []), pid)
     else:
@@ -222,11 +340,11 @@ def check(pid, tier, replay=None):
     res.coverage['trusted_base'] = TRUSTED_COMMON + [
         'hooks in /repo (UNODB_DETAIL_VERIF_HOOKS), harness/dsched.hpp, harness/olc_sched.cpp (ghost analyses of the event log)',
         'extraction: ExtrOcamlBasic only; ocaml/lin_run.ml (untrusted search + verified lin_ok), ocaml/olc_replay.ml (extracted per-node acceptor)',
-        'Python scan checker in tools/p_olc.py',
+        'Python scan checker and snapshot checker (entries, in-flight accounting) in tools/p_olc.py; harness/canon_dump.hpp',
     ]
     srcs = [os.path.join(VERIF, 'harness', 'olc_sched.cpp')] + [os.path.join(REPO, f) for f in ('qsbr.cpp', 'qsbr_ptr.cpp', 'art_internal.cpp')]
     with Lock():
-        err = extract_and_build_ocaml(['lin_run', 'olc_replay'])
+        err = extract_and_build_ocaml(['lin_run', 'olc_replay'] + (['art_run'] if pid == 'C03' else []))
         b, berr = build_cxx('olc_sched', srcs, HOOK_FLAGS)
     if err or berr:
         res.violation('cannot build the exploration: ' + (err or berr)[-800:], {'kind': 'build'}, found_input=False)
@@ -234,8 +352,12 @@ def check(pid, tier, replay=None):
     if replay:
         rp = json.load(open(replay))
         rc, o, e = sh([os.path.join(BIN, 'olc_sched'), '--init', rp['init'], '--prog', rp['program'], '--replay', rp['schedule'],
-                       '--qs', rp.get('qs', 'every')], timeout=300)
+                       '--qs', rp.get('qs', 'every')] + SNAP_ARGS.get(pid, []), timeout=300)
         print('\n'.join(l for l in o.splitlines() if not l.startswith('E ')))
+        if pid in SNAP_ARGS:
+            for ps in snapshot_check(o, os.path.join(OCAML, 'art_run'))['problems'].values():
+                print('\n'.join('SNAPSHOT ' + p for p in ps))
+        o = '\n'.join(l for l in o.split('\n') if not l.startswith('SNAP'))
         rc, o2, e = sh([os.path.join(OCAML, 'lin_run')], input=o, timeout=120)
         print(o2)
         return 0
@@ -250,6 +372,7 @@ def check(pid, tier, replay=None):
     bound = 2 if thorough else 1
     sample = 2 if thorough else 4
     from concurrent.futures import ThreadPoolExecutor
+    snapres = {}
 
     def run(job):
         i, init, prog, qs = job
@@ -257,9 +380,14 @@ def check(pid, tier, replay=None):
         big = init.count(',') >= 30
         rc, o, e = sh([os.path.join(BIN, 'olc_sched'), '--init', init, '--prog', prog, '--bound', str(bound),
                        '--max', str(maxe // 8 if big else maxe), '--random', str(nrand // 6 if big else nrand), '--seed', str(seed() + i),
-                       '--qs', qs, '--sample', str(sample * 16 if big else sample)], timeout=3400 if thorough else 900)
+                       '--qs', qs, '--sample', str(sample * 16 if big else sample)] + SNAP_ARGS.get(pid, []),
+                      timeout=3400 if thorough else 900)
         if rc != 0:
             return job, rc, o, e, '', ''
+        if pid in SNAP_ARGS:
+            # writer-quiescent snapshots against the sequential model; the SNAP lines are not for the two validators
+            snapres[job] = snapshot_check(o, os.path.join(OCAML, 'art_run'))
+            o = '\n'.join(l for l in o.split('\n') if not l.startswith('SNAP'))
         rc2, lin, e2 = sh([os.path.join(OCAML, 'lin_run')], input=o, timeout=1800)
         rc3, rep, e3 = sh([os.path.join(OCAML, 'olc_replay')], input=o, timeout=1800)
         # the event lines have been consumed by the two validators; keep only the history / problem lines
@@ -273,6 +401,8 @@ def check(pid, tier, replay=None):
     distinct = set()
     samples = []
     nproto = 0
+    nsnap = nmoments = snap_incomplete = 0
+    snap_shapes = set()
     mine = {'C03': ('C03:',), 'C04': ('C04:',), 'C09': (), 'C14': ('C14:',)}[pid]
     for (i, init, prog, qs), rc, o, e, lin, rep in outs:
         if rc != 0:
@@ -281,6 +411,12 @@ def check(pid, tier, replay=None):
                           {'kind': 'crash', 'init': init, 'program': prog, 'qs': qs})
             continue
         blocks = o.split('\nY\n')
+        sn = snapres.get((i, init, prog, qs))
+        if sn:
+            nsnap += sn['snapshots']
+            nmoments += sn['moments']
+            snap_shapes |= sn['shapes']
+            snap_incomplete += sn['incomplete']
         verdicts = [l for l in lin.splitlines() if l == 'ok' or l.startswith('NONLIN') or l == 'TOOLONG']
         # per execution: 'SCAN ...' follows the point verdict when the execution contains scans
         scan_verdicts = {}
@@ -330,6 +466,8 @@ def check(pid, tier, replay=None):
             probs = [l[2:] for l in lines if l.startswith('P ') and l[2:].startswith(mine)] if mine else []
             if pid == 'C03' and bi < len(verdicts) and verdicts[bi].startswith('NONLIN'):
                 probs.append('the recorded history is not linearizable (%s)' % verdicts[bi])
+            if sn and bi in sn['problems']:
+                probs += ['writers vs sequential model: ' + x for x in sn['problems'][bi]]
             if pid == 'C09':
                 probs += scan_problems(lines)
                 sv = scan_verdicts.get(bi)
@@ -380,6 +518,12 @@ def check(pid, tier, replay=None):
     if pid == 'C09' and nscan_checked == 0:
         res.violation('no scan was validated against the successor-query chain', {'kind': 'correspondence', 'broken': 'lin_run SCAN'},
                       found_input=False)
+    if pid in SNAP_ARGS:
+        res.coverage.update({'snapshots_checked': nsnap, 'distinct_snapshot_shapes': len(snap_shapes),
+                             'writer_quiescent_moments': nmoments, 'executions_with_snapshots_cut_short': snap_incomplete})
+        if nsnap < 2 * total or len(snap_shapes) < len(jobs) // 2:
+            res.violation('the snapshot check is vacuous (%d snapshots, %d shapes over %d executions): olc_sched --snap does not work'
+                          % (nsnap, len(snap_shapes), total), {'kind': 'correspondence', 'broken': 'olc_sched --snap / hooks'}, found_input=False)
     if total < len(jobs) * 5 or (traces == 0):
         res.violation('the exploration is vacuous (%d executions, %d traces validated): hooks or scheduler do not work' % (total, traces),
                       {'kind': 'correspondence', 'broken': 'olc_sched / hooks'}, found_input=False)
